@@ -127,6 +127,56 @@ def run(prog, rep, tier, repo):
             rep.viol('score-form', key, 'information is %s (matmul flags ok: %s), expected X^T diag(w dmu^2/var) X' % (show_expr(frozenset(goods))[:200], okmm), site_of(pdb.bodies[k]))
     rep.floor('score-form', 2, 'gradient, information')
 
+    # ------------------------------------------------------------------ D2' the score helpers receive the quantities their parameters stand for
+    # compute_dbeta / compute_ddbeta are checked above as functions of (x, y, mu, dmu, var, w); at every call site the value bound to `dmu`
+    # must be the derivative of the inverse link, the one bound to `var` the variance function, the one bound to `mu` the inverse link
+    # (for canonical links dmu == var numerically, so a swap is invisible there and wrong for Gamma / Exponential)
+    producers = {'dmu': 'd_inv_link', 'var': 'variance', 'mu': 'inv_link'}
+    nsites = 0
+    for hk in (G + '::compute_dbeta', G + '::compute_ddbeta'):
+        h = prog.func(hk)
+        if h is None:
+            continue
+        pnames = h.body.arg_names()
+        for ck in sorted(pdb.bodies):
+            if not ck.startswith(G):
+                continue
+            cf = prog.func(ck)
+            if cf is None:
+                continue
+            for c in cf.calls():
+                if c.path != hk:
+                    continue
+                nsites += 1
+                key = 'score-args:%s@%s:%d' % (short(hk), short(ck), nsites)
+                bad, unread = [], []
+                for i, a in enumerate(c.args):
+                    want_p = producers.get(pnames[i] if i < len(pnames) else None)
+                    if want_p is None:
+                        continue
+                    vals = [st.value for st in cf.stores() if st.target == a] if tag(a) == 'local' else [a]
+                    vals = [v for v in vals if not (tag(v) == 'call' and short(v[1]) in ('new', 'with_capacity', 'zeros'))] or vals
+                    prods = set()
+                    for v in vals:
+                        while tag(v) == 'call' and short(v[1]) in ('deref', 'clone', 'to_vec', 'to_owned', 'as_slice') and v[2]:
+                            v = v[2][0]
+                        prods.add(short(v[1]) if tag(v) == 'call' else None)
+                    if prods == {want_p}:
+                        continue
+                    if None in prods or not prods:
+                        unread.append('%s <- %s' % (pnames[i], show(a)[:30]))
+                    elif prods & set(producers.values()):
+                        bad.append('parameter `%s` receives the result of %s (expected %s)' % (pnames[i], '/'.join(sorted(p_ for p_ in prods if p_)), want_p))
+                    else:
+                        unread.append('%s <- %s' % (pnames[i], '/'.join(sorted(p_ for p_ in prods if p_))))
+                if bad:
+                    rep.viol('score-args', key, '%s is called with swapped quantities: %s' % (short(hk), '; '.join(bad)), site_of(c.span))
+                elif unread:
+                    rep.undecided('score-args', key, 'origin of the arguments not read: %s' % '; '.join(unread), site_of(c.span), proof=False)
+                else:
+                    rep.ok('score-args', key, 'mu, dmu, var come from inv_link, d_inv_link, variance')
+    rep.floor('score-args', 2, 'the gradient and the information helper are each called somewhere in the GLM')
+
     # ------------------------------------------------------------------ fit loop
     f = prog.func(G + '::fit')
     if f is None:
